@@ -818,14 +818,18 @@ def merge_double_ended_times(
         ), "ds_fw and ds_bw are swapped"
 
     # Are all dt's within 1.5 seconds from one another?
-    if (ds_bw.time.size == ds_fw.time.size) and np.all(
-        ds_bw.time.values > ds_fw.time.values
+    # The shortcut is only valid if the measurements strictly alternate
+    # (fw_0 < bw_0 < fw_1 < bw_1 ..) and no pair can be left out below.
+    if (
+        (ds_bw.time.size == ds_fw.time.size)
+        and np.all(ds_bw.time.values > ds_fw.time.values)
+        and np.all(ds_bw.time.values[:-1] < ds_fw.time.values[1:])
     ):
-        if verify_timedeltas:
+        if verify_timedeltas and ds_fw.time.size > 0:
             dt_ori = (ds_bw.time.values - ds_fw.time.values) / np.array(
                 1, dtype="timedelta64[s]"
             )
-            dt_all_close = np.allclose(dt_ori, dt_ori[0], atol=1.5, rtol=0.0)
+            dt_all_close = np.ptp(dt_ori) <= 1.5
         else:
             dt_all_close = True
 
@@ -870,12 +874,13 @@ def merge_double_ended_times(
         leaveout[1:-1] = np.isclose(dt[:-2], dt[2:], atol=1.5, rtol=0.0) * ~np.isclose(
             dt[:-2], dt[1:-1], atol=1.5, rtol=0.0
         )
-        iuse_chfw2 = np.array(iuse_chfw)[~leaveout]
-        iuse_chbw2 = np.array(iuse_chbw)[~leaveout]
+        iuse_chfw2 = np.array(iuse_chfw, dtype=int)[~leaveout]
+        iuse_chbw2 = np.array(iuse_chbw, dtype=int)[~leaveout]
 
         if verbose:
             for itfw, itbw in zip(
-                np.array(iuse_chfw)[leaveout], np.array(iuse_chbw)[leaveout]
+                np.array(iuse_chfw, dtype=int)[leaveout],
+                np.array(iuse_chbw, dtype=int)[leaveout],
             ):
                 print(
                     "The following measurements do not belong together, as the time difference\n"
